@@ -1,7 +1,7 @@
 /- protocol handlers for the accessor model (C12) — glue
 
   request ::= (acc-<op> (cls (lvl fdecl…)…) (inst ("name" val)…) [(flags b b b b b)] [(sort b)])
-            | (acc-world (ops (def none|<k>) | (call <k>) …))
+            | (acc-world (ops (def none|<k>…) | (call <k>) …))     (def lists the MRO below the new class)
   fdecl   ::= ("name" p|c1|ct <compare> <init> <kw_only>)
   val     ::= (p <tok>) | none | (n <uid> <truthy>) | (t (<uid> <truthy>)…)
   flags   ::= skip_id skip_origin skip_content_id skip_non_compare skip_non_init
@@ -67,8 +67,8 @@ def handleAccessors (cmd : String) (args : List Sexp) : Option Sexp := do
     let ops ← field? args "ops"
     let (_, out) ← ops.foldlM (fun (st : World × List Sexp) op =>
       match op with
-      | .list [.atom "def", .atom "none"] => some (st.1.defineClass none, st.2)
-      | .list [.atom "def", p] => (asNat? p).map fun p => (st.1.defineClass (some p), st.2)
+      | .list [.atom "def", .atom "none"] => some (st.1.defineClass [], st.2)
+      | .list (.atom "def" :: ps) => (ps.mapM asNat?).map fun m => (st.1.defineClass m, st.2)
       | .list [.atom "call", k] => (asNat? k).map fun k =>
           let r := st.1.call k
           (r.2, st.2 ++ [ofNat r.1])
